@@ -908,13 +908,11 @@ start_function (GMarkupParseContext *context,
 	       strcmp (element_name, "callback") == 0);
       break;
     case STATE_CLASS:
+    case STATE_INTERFACE:
     case STATE_BOXED:
     case STATE_STRUCT:
     case STATE_UNION:
-      found = strcmp (element_name, "constructor") == 0;
-      /* fallthrough */
-    case STATE_INTERFACE:
-      found = (found ||
+      found = (strcmp (element_name, "constructor") == 0 ||
 	       strcmp (element_name, "function") == 0 ||
 	       strcmp (element_name, "method") == 0 ||
 	       strcmp (element_name, "callback") == 0);
